@@ -19,7 +19,11 @@ type Entry struct {
 func Load() []Entry {
 	p := os.Getenv("VERIF_CHALLENGE_CORPUS")
 	if p == "" {
-		p = "/verif/corpus/challenge-seeds.jsonl"
+		d := os.Getenv("VERIF_CORPUS_DIR")
+		if d == "" {
+			d = "/verif/corpus"
+		}
+		p = d + "/challenge-seeds.jsonl"
 	}
 	f, err := os.Open(p)
 	if err != nil {
